@@ -425,3 +425,76 @@ def translate_script(sc, k_from, k_to, index_map):
         sc.lines.append(" ".join([str(k_to), cmd] + args))
         sc.expected.append(sc.expected[i])
         sc.tags.append(sc.tags[i])
+
+
+# ---------------------------------------------------------------------------------------------
+# small-scope exhaustive enumeration (shared by C10, C16, C19)
+import itertools as _it
+
+from .. import build as _build
+from .. import judge as _J
+
+SCOPE_SHAPES = [
+    ("gapless_from_0", "u8", [0, 1, 2]),
+    ("gapless_negative_start", "i8", [-2, -1, 0, 1]),
+    ("holes_mixed_sign", "i16", [-5, -4, 3, 9, 10]),
+    ("holes_at_type_limits", "i8", [-128, -127, 5, 127]),
+    ("single_variant", "u32", [7]),
+    ("gapless_at_type_max", "u8", [253, 254, 255]),
+    ("holes_wide_repr", "u64", [0, 1, 2 ** 40]),
+    ("holes_9_values_usize", "usize", [0, 1, 2, 3, 4, 5, 6, 7, 9]),
+]
+SCOPE_SHAPES_EXTRA = [
+    ("holes_18_runs", "i16", [-40, -39] + [3 * i for i in range(17)]),
+    ("full_u8", "u8", list(range(256))),
+    ("full_i8", "i8", list(range(-128, 128))),
+]
+
+
+def scope_spec(r, vals):
+    return {"repr": r, "vis": "pub", "ident": "E", "enum_attrs": [],
+            "variants": [{"ident": "V%d" % i, "disc": str(v)} for i, v in enumerate(vals)]}
+
+
+def scope_configs(max_size, gapless):
+    """Every feature subset of size <= max_size (range pulls in iter) x every mode of the mode features present."""
+    from .. import strategies as _S
+    str_modes = [None, "match", "table"]
+    out = []
+    for k in range(1, max_size + 1):
+        for sub in _it.combinations(E.ALL_FEATURES, k):
+            fs = list(sub)
+            if "range" in fs and "iter" not in fs:
+                fs.append("iter")
+            doms = []
+            for f in fs:
+                if f == "iter":
+                    md = [None, "next_and_back", "table"] + (["range"] if gapless else []) + ([] if "range" in fs else ["table_inline"])
+                    doms.append(md)
+                elif f in E.MODE_FEATURES:
+                    doms.append(str_modes)
+                else:
+                    doms.append([None])
+            for combo in _it.product(*doms):
+                out.append(_S.simple_config(fs, {f: m_ for f, m_ in zip(fs, combo)}))
+    return out
+
+
+def batch_src(items, crate_attrs="", module_prefix="", module_suffix=""):
+    parts = [crate_attrs + E.HEADER]
+    for i, item in items:
+        parts.append("pub mod m%d {\n%s    use ::enum_tools::EnumTools;\n%s\n%s}" % (i, module_prefix, item, module_suffix))
+    return "\n".join(parts) + "\n"
+
+
+def failing_items(items, **kw):
+    """[(index, error)] of items that do not compile (batched check-only compile, failing batches bisected)."""
+    if not items:
+        return []
+    c = _build.rustc(batch_src(items, **kw), mode="check", crate_name="scope")
+    if c.ok:
+        return []
+    if len(items) == 1:
+        return [(items[0][0], _J.short_err(c.stderr, 700))]
+    mid = len(items) // 2
+    return failing_items(items[:mid], **kw) + failing_items(items[mid:], **kw)
